@@ -506,8 +506,9 @@ class IntEval:
                 r = self.on_call(e, self, st)
                 if r is not NotImplemented:
                     return r
-            if isinstance(e.func, ast.Name) and e.func.id in ("bool", "int", "abs", "min", "max", "any", "all", "len", "str", "tuple", "list", "sorted"):
-                return {"bool": bool, "int": int, "abs": abs, "min": min, "max": max, "any": any, "all": all, "len": len, "str": str, "tuple": tuple, "list": list, "sorted": sorted}[e.func.id](*[self.ev(a, st) for a in e.args])
+            if isinstance(e.func, ast.Name) and e.func.id in ("bool", "int", "abs", "min", "max", "any", "all", "len", "str", "tuple", "list", "sorted", "range", "sum", "divmod", "round") and not e.keywords:
+                return {"bool": bool, "int": int, "abs": abs, "min": min, "max": max, "any": any, "all": all, "len": len, "str": str, "tuple": tuple, "list": list, "sorted": sorted,
+                        "range": range, "sum": sum, "divmod": divmod, "round": round}[e.func.id](*[self.ev(a, st) for a in e.args])
             if isinstance(e.func, ast.Attribute) and not e.keywords:
                 recv = self.ev(e.func.value, st)
                 args = [self.ev(a, st) for a in e.args]
@@ -523,6 +524,13 @@ class IntEval:
             return [self.ev(x, st) for x in e.elts]
         if isinstance(e, ast.Set):
             return frozenset(self.ev(x, st) for x in e.elts)
+        if isinstance(e, ast.Subscript) and isinstance(e.slice, ast.Slice):
+            base = self.ev(e.value, st)
+            if isinstance(base, (tuple, list, str, range)):
+                lo = self.ev(e.slice.lower, st) if e.slice.lower is not None else None
+                hi = self.ev(e.slice.upper, st) if e.slice.upper is not None else None
+                sp_ = self.ev(e.slice.step, st) if e.slice.step is not None else None
+                return base[lo:hi:sp_]
         if isinstance(e, ast.Subscript) and not isinstance(e.slice, ast.Slice):
             base, idx = self.ev(e.value, st), self.ev(e.slice, st)
             if isinstance(base, (tuple, str, range)) and isinstance(idx, int) and not isinstance(idx, bool):
